@@ -199,10 +199,78 @@ def _splice(caller, bi, callee):
     nbody["locals"] = new_locals
     nbody["blocks"] = blocks
     corr = _correlation(blocks, bo, len(fb_["blocks"]), lo, call, cont)
+    if corr and not os.environ.get("WOWSRP_NO_THREAD") and _thread(blocks, corr):
+        corr = None
     if corr:
         nbody["corr"] = list(cb.get("corr", [])) + [corr]
     out["body"] = nbody
     return out
+
+
+def _succ1(t):
+    """the single normal successor of a straight-line terminator, else None"""
+    if t["k"] == "goto" or t["k"] in ("drop", "assert"):
+        return t["target"]
+    if t["k"] == "call" and t.get("target") is not None:
+        return t["target"]
+    return None
+
+
+def _thread(blocks, corr):
+    """Tail duplication for a spliced `Result` / `Option` helper: the straight-line blocks between
+    each of the helper's return-value sites and the caller's test of that value are copied per
+    site and the test is replaced by the jump it must take, so that no join mixes the helper's
+    `Ok(v)` with its propagated error - terms and paths then read as before the extraction
+    (`let v = helper()?` behaves like the inlined `read_exact(..)?; v`).  Returns False (and
+    leaves the blocks alone) when the shape is not a straight line."""
+    sb = corr["switch"]
+    plans = []
+    for a, variant in sorted(corr["assign"].items()):
+        tgt = corr["succ"].get(variant)
+        first = _succ1(blocks[a]["term"])
+        if tgt is None or first is None:
+            return False
+        path = []
+        n = first
+        while True:
+            path.append(n)
+            if n == sb:
+                break
+            if len(path) > 14 or n in corr["assign"]:
+                return False
+            n = _succ1(blocks[n]["term"])
+            if n is None:
+                return False
+        plans.append((a, path, tgt))
+    on_paths = set()
+    for a, path, tgt in plans:
+        on_paths |= set(path)
+    # nobody else may enter the duplicated stretch
+    for i, blk in enumerate(blocks):
+        if blk["cleanup"] or i in on_paths or i in corr["assign"]:
+            continue
+        t = blk["term"]
+        outs = [t.get("target")] if t["k"] in ("goto", "drop", "assert", "call") else ([x[1] for x in t.get("targets", [])] + [t.get("otherwise")] if t["k"] == "switch" else [])
+        if any(o in on_paths for o in outs):
+            return False
+    for a, path, tgt in plans:
+        base = len(blocks)
+        for j, n in enumerate(path):
+            nb = {"cleanup": False, "stmts": list(blocks[n]["stmts"])}
+            t = dict(blocks[n]["term"])
+            if n == sb:
+                nb["term"] = {"k": "goto", "target": tgt, "span": t["span"], "threaded": True}
+            else:
+                t["target"] = base + j + 1
+                nb["term"] = t
+            blocks.append(nb)
+        t = dict(blocks[a]["term"])
+        t["target"] = base
+        blocks[a] = dict(blocks[a], term=t)
+    for n in on_paths:
+        sp = blocks[n]["term"]["span"]
+        blocks[n] = {"cleanup": False, "stmts": [], "term": {"k": "unreachable", "span": sp}}
+    return True
 
 
 def _correlation(blocks, bo, n_callee, lo, call, cont):
@@ -343,7 +411,14 @@ def adt_aliases(d):
 
 
 class FactBase:
-    def __init__(self, path):
+    def __init__(self, path, presentation=None):
+        """presentation: how helpers that did not exist on the pinned tree are shown to the
+        rules - "spliced" (default: loop-free ones spliced into their callers), "loops" (those
+        with loops as well), "written" (the program as written).  All three are the same
+        program; see framework.PRESENTATIONS."""
+        if presentation is None:
+            presentation = "written" if os.environ.get("WOWSRP_NO_SPLICE") else ("loops" if os.environ.get("WOWSRP_SPLICE_LOOPS") else "spliced")
+        self.presentation = presentation
         with open(path) as f:
             raw = f.read()
         # rustc prints re-exported items through whichever dependency makes them visible in the
@@ -385,8 +460,10 @@ class FactBase:
         self.consts = {c["path"]: c for c in self.d["consts"]}
         self.impls = self.d["impls"]
         self.spliced = []
+        self._absorbed = None
         self.fresh_paths = set()
-        if not os.environ.get("WOWSRP_NO_SPLICE"):
+        self.fresh_loopy = set()
+        if self.presentation != "written":
             self.splice_fresh_helpers()
 
     def ty(self, ix):
@@ -419,8 +496,12 @@ class FactBase:
                 return False
             if (b.reachable() and b.is_pub()) or b.d.get("impl_trait") or "variant_of" in b.d:
                 return False
-            if len(b.blocks) > 80 or _cfg.back_edges(b):
+            if len(b.blocks) > 80:
                 return False
+            if _cfg.back_edges(b):
+                self.fresh_loopy.add(b.path)
+                if self.presentation != "loops":
+                    return False
             # polymorphic bodies of const-generic functions are analysed through their instances
             if b.d.get("generics") and any(self.ty(l["ty"]).s.count("; ") and "[u8; " not in self.ty(l["ty"]).s and False for l in b.locals):
                 return False
@@ -448,7 +529,37 @@ class FactBase:
             if not changed:
                 break
         self.spliced = done
+        self._absorbed = None
         return done
+
+    def absorbed(self):
+        """fresh helpers that no longer exist as functions of their own for the rules: every call
+        was spliced into the caller and the function is never used as a value (`map(helper)`), so
+        whatever the helper does is done - and judged - in each caller's graph"""
+        if getattr(self, "_absorbed", None) is not None:
+            return self._absorbed
+        used = set()
+
+        def scan(x):
+            if isinstance(x, dict):
+                if x.get("k") == "const" and x.get("fn"):
+                    used.add(x["fn"])
+                if x.get("k") == "call":
+                    for key in ("resolved", "resolved_generic", "callee"):
+                        if x.get(key):
+                            used.add(x[key])
+                for v in x.values():
+                    scan(v)
+            elif isinstance(x, list):
+                for v in x:
+                    scan(v)
+
+        for pth, b in self.bodies.items():
+            if pth in self.fresh_paths:
+                continue
+            scan(b.d.get("body"))
+        self._absorbed = {pth for pth in self.fresh_paths if pth not in used and not any(u.startswith(pth + "::<") for u in used)}
+        return self._absorbed
 
     def pruned(self, path, tag, keep):
         """a variant of body `path` in which each switch block in `keep` ({block: successor})
